@@ -1127,8 +1127,42 @@ func btoi(b bool) int {
 
 // c05WrappedTrie: the state hash of the key/value store is the hash of the
 // heap-ordered multiset of updates, in both storage modes.
+// c05AccountRoot: the storage digest written into an account is recomputed from the storage on every
+// finalisation. The root PERSISTED with an account differs between storage modes (flat state keeps the
+// zero hash, trie mode the Merkle root), so reusing it — any path through updateRoot that leaves
+// data.Root as loaded — makes the state hash depend on the mode and on which block last committed the
+// account.
+func c05AccountRoot(c C) {
+	p, r := c.P, c.R
+	ur := p.Func("state", "stateObject.updateRoot")
+	fv := p.Field("state", "Account.Root")
+	var st []ir.Store
+	for _, s := range p.Stores(fv) {
+		if ir.EnclosingTop(s.Fn) == ur && s.Kind == "store" {
+			st = append(st, s)
+		}
+	}
+	if !c.MustFind("K2", "state.(*stateObject).updateRoot/store", ur, len(st), "store to data.Root") {
+		return
+	}
+	for _, s := range st {
+		r.Check("K2", "state.(*stateObject).updateRoot/root-is-current-storage-hash", p.InstrPos(s.Instr), ir.Render(s.Val) == "state.Trie.Hash(c.trie)", "data.Root = c.trie.Hash(): "+short(ir.Render(s.Val), 80))
+	}
+	isStore := func(in ssa.Instruction) bool {
+		for _, s := range st {
+			if s.Instr == in {
+				return true
+			}
+		}
+		return false
+	}
+	c.MustPass("state.(*stateObject).updateRoot", "root-recomputed-on-every-path", ir.Entry(ur), ir.IsReturn, isStore, nil, "every path through updateRoot recomputes data.Root (no reuse of the persisted, mode-specific root)")
+	c.MustPass("state.(*stateObject).updateRoot", "pending-writes-applied-first", ir.Entry(ur), isStore, ir.CallMatcher("state.stateObject.updateTrie"), nil, "the pending storage writes are applied to the trie before it is hashed")
+}
+
 func c05WrappedTrie(c C) {
 	p := c.P
+	c05AccountRoot(c)
 	c05LessStrict(c, "state", "kvHeap.Less", "bytes.Compare(kh[i],kh[j])")
 	for _, name := range []string{"wrappedTrie.TryUpdate", "wrappedTrie.TryDelete"} {
 		fn := p.Func("state", name)
